@@ -150,6 +150,23 @@ func (k case08) observe() (string, []int, string) {
 	if !k.triggered {
 		path = "/public/x"
 	}
+	// the verdict must not depend on what the same filter instance judged before: layouts with several chains are first
+	// asked about other header values (a different last one per layout), then about the one under test
+	if len(k.chains) >= 2 {
+		warm := []string{"", "a", "ab", "b", "zz"}
+		off := len(k.kinds) + len(k.chains)
+		if k.hdrVal != nil {
+			off += len(*k.hdrVal)
+		}
+		for i := 0; i < 3; i++ {
+			hw := map[string]string{"cookie": h["cookie"]}
+			if v := warm[(off+i)%len(warm)]; v != "zz" || i%2 == 0 {
+				hw["x-tenant"] = v
+			}
+			_, _ = filter.Check(bg, mkReq("https", "app.test", "/x", hw))
+		}
+		sf.seen = nil
+	}
 	resp, err := filter.Check(bg, mkReq("https", "app.test", path, h))
 	var seen []int
 	for _, s := range sf.seen {
